@@ -87,16 +87,37 @@ Proof. repeat split; try (vm_compute; reflexivity). discriminate. Qed.
 (* hash hypotheses: a dumps that separates the two dictionaries of the order witness and a digest
    that separates the two inputs exist, and the two keys are then indeed different and defined *)
 Definition ex_dumps (v : pyv) : string :=
-  if pyv_same (normalise v) (normalise (model_encode strG (blank strG M_yz))) then "1" else "0".
+  if pyv_same (normalise v) (normalise (model_encode strG (blank strG M_cp))) then "1" else "0".
 Example hash_hypotheses_example :
-  let d := model_encode strG (blank strG M_yz) in let d' := model_encode strG (blank strG M_zy) in
+  let d := model_encode strG (blank strG M_cp) in let d' := model_encode strG (blank strG M_yz) in
   dumps_sep ex_dumps d d' /\ H_sep (fun s : string => s) ("ds" ++ ex_dumps d) ("ds" ++ ex_dumps d') /\
-  key strG ex_dumps string (fun s => s) "ds" M_yz = "ds1" /\
-  key strG ex_dumps string (fun s => s) "ds" M_zy = "ds0".
+  key strG ex_dumps string (fun s => s) "ds" M_cp = "ds1" /\
+  key strG ex_dumps string (fun s => s) "ds" M_yz = "ds0".
 Proof.
   cbn zeta. repeat split; try (vm_compute; reflexivity).
   - intros E. vm_compute in E. discriminate.
   - intros E. exact E.
+Qed.
+
+(* hash_content_order_blind: statements in another build order, both mappings in another order *)
+Definition M_base : model strG :=
+  mkModel strG "m" "" ex_params ex_rvs [SOde strG sys_cp] ex_steps ex_di "PREDICTION"
+          [("Symbol('Y')", 1%Z); ("Symbol('Z')", 2%Z)] [("Symbol('Y')", "log(Symbol('Y'))"); ("Symbol('Z')", "Symbol('Z')")] None.
+Example hash_content_order_blind_example :
+  let dv' := [("Symbol('Z')", 2%Z); ("Symbol('Y')", 1%Z)] in
+  let ot' := [("Symbol('Z')", "Symbol('Z')"); ("Symbol('Y')", "log(Symbol('Y'))")] in
+  with_content strG M_base [SOde strG sys_pc] dv' ot' <> M_base /\
+  stmts_eq strG (m_statements strG M_base) [SOde strG sys_pc] = true /\
+  map_eqb String.eqb Z.eqb (m_depvars strG M_base) dv' = true /\
+  map_eqb String.eqb String.eqb (m_obstrans strG M_base) ot' = true /\
+  NoDup (map (depvar_key strG) (m_depvars strG M_base)) /\ NoDup (map (obstrans_key strG) (m_obstrans strG M_base)) /\
+  key strG ex_dumps string (fun s => s) "ds" (with_content strG M_base [SOde strG sys_pc] dv' ot') =
+  key strG ex_dumps string (fun s => s) "ds" M_base.
+Proof.
+  cbn zeta. repeat split; try (vm_compute; reflexivity).
+  - intro E. inversion E.
+  - cbn. repeat constructor; cbn; intuition discriminate.
+  - cbn. repeat constructor; cbn; intuition discriminate.
 Qed.
 
 (* renaming: a non-trivial use of with_meta *)
